@@ -10,7 +10,7 @@ structure.  Closures / coroutines nested in inlined helpers join the view's fami
 inlined, with the view as their parent (capture translation keeps working because the
 `Aggregate(Closure)` statement is part of the spliced body).
 
-Not inlined: functions of other crates (they are API, named by rules), functions matching the
+Not inlined: functions of other crates and functions exported by the crate (API: stable, named by rules), functions matching the
 `keep` patterns of the rule module (its named sinks), recursive calls, calls whose argument count
 does not match (spread arguments), indirect and unresolved trait calls.  `async fn` helpers are not
 spliced (their body runs when the returned future is polled): the engine crosses those through
@@ -149,6 +149,8 @@ def _callee(ws, fn, c, keep, stack):
         return None
     if g.kind not in ('fn', 'assoc_fn'):
         return None
+    if g.reach:
+        return None        # part of the crate's exported API: a stable, nameable definition - only internal helpers are spliced
     if g.cor or (any(ch.cor for ch in g.children) and ('Future' in g.ret or 'oroutine' in g.ret)):
         return None        # async fn / async_trait wrapper: its logic runs when the future is polled
     if any(glob_match(p, name) for p in keep):
